@@ -15,6 +15,7 @@ CONSTANTS
   GuardInactive = TRUE
   GuardHealth = FALSE
   OwnDelete = FALSE
+  CacheMiss = FALSE
 VIEW view
 CHECK_DEADLOCK FALSE
 PROPERTIES HealthTruth
